@@ -335,3 +335,82 @@ func VerifC09_q_failedReloadRetried() {
 		}
 	}
 }
+
+// BOUND: topologies {0,1}; two statefulset pods bound (default or reserving policy); the first one is deleted and its IP is released -- by handling its delete event, or by the administrator's release API -- while a reload through updateConfigMap (to variant 0 re-encoded / 1 / 2) runs atomically inside any one window right before or after an API-server call of the release (symbolic window 0..8); afterwards one more pod is scheduled
+// ASSUME: C09: interference granularity = API-server calls: the reload runs to completion inside one window of the release; interleavings in which it would have to wait for the table lock the release holds are discarded
+func VerifC09_q_reloadWhileReleasing() {
+	topo := nondetChoice(2)
+	w := vpNewWorld(topo, false)
+	text0, _ := vpConfig(topo, 0)
+	if err := w.reload(text0); err != nil {
+		return
+	}
+	w.setStatefulSet(3)
+	name, ok := w.scheduleSts(0)
+	if !ok {
+		return
+	}
+	other, ok2 := w.scheduleSts(1)
+	ip := vpBoundIPs(w.pods[name])[0]
+	variant := nondetChoice(3)
+	text1, kept := vpConfig(topo, variant)
+	if variant == 0 {
+		text1 = " " + text1
+	}
+	all := w.ips
+	reloaded := false
+	w.interferer = func() {
+		w.configMap = text1
+		if _, err := w.plugin.updateConfigMap(); err == nil {
+			reloaded = true
+		}
+	}
+	w.windowAt = nondetInt(0, 8)
+	w.deletePod(name)
+	w.syncListers()
+	if nondetBool() {
+		for len(w.pending) > 0 {
+			_ = w.handleEvent(0)
+		}
+	} else {
+		w.pending = nil
+		_ = w.apiRelease(ip)
+	}
+	w.finishInterference()
+	ran := w.interferer == nil
+	w.interferer = nil
+	verifReach("release-returned")
+	if !ran || !reloaded {
+		return
+	}
+	floatingip.VerifRotate(w.innerIPAM())
+	verifReach("reload-completed-inside-release")
+	w.ips = kept
+	for _, x := range all {
+		if !vpHas(kept, x) {
+			inA, inU := floatingip.VerifTables(w.innerIPAM(), x)
+			verifAssert("C09/release-during-reload-drops-deconfigured", !inA && !inU, "a de-configured IP is back in the tables after a release that overlapped the reload: "+x)
+		}
+	}
+	if ok2 && w.pods[other] != nil {
+		for _, x := range vpBoundIPs(w.pods[other]) {
+			if !vpHas(kept, x) {
+				continue
+			}
+			owned := false
+			for _, e := range w.dump() {
+				if e.IP == x && e.Allocated && e.Key == vpKeyOf(w.pods[other]) {
+					owned = true
+				}
+			}
+			verifAssert("C09/release-during-reload-keeps-others", owned, "the allocation of another pod is missing after a release that overlapped a reload although its IP is still configured: "+x)
+		}
+	}
+	verifAssert("C09/agree-after-release-during-reload", w.agree(), "memory and store disagree after a release that overlapped a reload")
+	next, ok3 := w.scheduleSts(2)
+	if ok3 {
+		for _, x := range vpBoundIPs(w.pods[next]) {
+			verifAssert("C09/deconfigured-not-allocated-after-release", vpHas(kept, x), "a pod was bound with an IP that is absent from the configuration in force: "+x)
+		}
+	}
+}
